@@ -68,6 +68,23 @@ def dft_instances():
     return out
 
 
+def svp_instances():
+    out = []
+    S = "poulpy-cpu-ref/src/reference/fft64/svp.rs"
+    names = ["svp_apply_dft", "svp_apply_dft_to_dft", "svp_apply_dft_to_dft_assign", "svp_prepare"]
+    for op, oname in enumerate(names):
+        shapes = [(1, 1)] if op == 3 else ([(2, 2)] if op == 2 else [(2, 2), (3, 2), (2, 3), (1, 1)])
+        for rs, bs in shapes:
+            for sel in range(4):
+                lr, lb = (N * COLS, N * COLS) if op == 3 else (L(rs + 1), L(bs))
+                out.append(Instance(
+                    crate="hk_hal", family=f"dft.{oname}", name=f"c11_{oname}_rs{rs}_bs{bs}_c{sel}",
+                    call=f"crate::c11_dft::svp::<{rs}, {bs}, {lr}, {lb}, {op}>({sel})", unwind=L(4) + 6,
+                    params={"op": oname, "res_size": rs, "b_size": bs, "cols_sel": sel}, symbolic=["vector operand words", "all prior output content"],
+                    functions=[f"{S}::{oname}"], timeout=600, core=((rs, bs) in ((3, 2), (1, 1)) and sel in (0, 1)) or (op == 2 and sel == 0)))
+    return out
+
+
 def shared(tier, seed):
     """frame-style coefficient-domain families shared with C08/C09 (their core sets only)"""
     out = []
@@ -82,7 +99,7 @@ def shared(tier, seed):
 
 
 def instances(tier, seed):
-    return dft_instances() + shared(tier, seed)
+    return dft_instances() + svp_instances() + shared(tier, seed)
 
 
 META = {
